@@ -127,7 +127,7 @@ Definition check (t : tcase) : nat :=
       rows_eqb true (t_ops t) (t_obs t) (trace e (init (t_t0 t)) (t_ops t))
       && fresh_ok e (hinit (t_t0 t)) (t_ops t) (t_fc t) (t_fe t) in
   let ok_spec :=
-      negb (px_okb e (hinit (t_t0 t)) (t_ops t))
+      negb (wf_sizes (t_t0 t) (t_ops t) && px_okb e (hinit (t_t0 t)) (t_ops t))
       || (rows_eqb false (t_ops t) (t_obs t) (spec_trace e (hinit (t_t0 t)) (t_ops t))
           && obs_ok e (hinit (t_t0 t)) (t_ops t) (t_obs t) (t_fc t) (t_fe t)) in
   ((if ok_model then 0 else 1) + (if ok_spec then 0 else 2))%nat.
@@ -137,10 +137,6 @@ Fixpoint index_from {A} (n : nat) (l : list A) : list (nat * A) :=
 
 Definition bad (cases : list tcase) : list (nat * nat) :=
   filter (fun p => negb (Nat.eqb (snd p) 0)) (index_from 0 (map check cases)).
-
-(** which cases satisfy the side condition (reported in the histogram) *)
-Definition side_ok (cases : list tcase) : list (nat * nat) :=
-  index_from 0 (map (fun t => if px_okb (t_env t) (hinit (t_t0 t)) (t_ops t) then 1%nat else 0%nat) cases).
 
 (** ** thread race on a memoised function
 
@@ -187,7 +183,7 @@ Definition rbad (cases : list rcase) : list (nat * nat) :=
 (** all cases: (index, check code + 10 if the history satisfies the side condition) *)
 Definition report (cases : list tcase) : list (nat * nat) :=
   index_from 0 (map (fun t => check t
-                              + (if px_okb (t_env t) (hinit (t_t0 t)) (t_ops t) then 10 else 0))
+                              + (if wf_sizes (t_t0 t) (t_ops t) && px_okb (t_env t) (hinit (t_t0 t)) (t_ops t) then 10 else 0))
                     cases).
 
 (** ** fresh computation in a new interpreter: the model's [fresh_*] must give the same *)
